@@ -316,8 +316,19 @@ class Interp(Engine):
             try:
                 return self.lift(base.obj[self.lower(idx)])
             except ValueError:
-                # native sequence of ints indexed symbolically -> If chain
                 obj = base.obj
+                if isinstance(obj, dict) and isinstance(idx, VEnum):
+                    # native dict keyed by enum members, symbolic key: case split over the keys of that enum class
+                    keys = [k for k in obj if isinstance(k, idx.cls)]
+                    members = enum_members(idx.cls)
+                    hit = [idx.t == members.index(k) for k in keys]
+                    if not keys or not self.branch(z3.Or(hit)):
+                        raise PyRaise(KeyError, "key not in dict", self.cur_line)
+                    r = self.lift(obj[keys[-1]])
+                    for k, h in list(zip(keys, hit))[-2::-1]:
+                        r = self.ite(h, self.lift(obj[k]), r)
+                    return r
+                # native sequence of ints indexed symbolically -> If chain
                 iv = self.as_int(idx)
                 if isinstance(obj, (tuple, list)) and iv is not None and all(isinstance(x, int) for x in obj):
                     n = len(obj)
@@ -868,8 +879,11 @@ class Interp(Engine):
                 self.in_clause = saved_clause
                 vt = None
                 for vname, cand in c.variants.items():
-                    vt = cand
-                    break
+                    if all(self.kind_matches(code_env[pn], pT) for pn, pT in cand.items() if pn in code_env):
+                        vt = cand
+                        break
+                if vt is None:
+                    raise Unsupported("no verified variant of %s matches the argument kinds at this call" % c.key)
                 for pname, pT in (vt or {}).items():
                     if pname in code_env:
                         cond = self.conforms(code_env[pname], pT)
@@ -940,6 +954,36 @@ class Interp(Engine):
             self.in_clause = saved_clause
             self.env0, self.heap0, self.lists0 = saved_env0, saved_heap0, saved_lists0
             self.frames.pop()
+
+    def kind_matches(self, v, T_):
+        """Does the value have the kind (not the range) the variant of the callee was verified for?"""
+        if isinstance(T_, TConst):
+            try:
+                return self.lower(v) == T_.value or (T_.value is None and isinstance(v, VNone))
+            except Exception:
+                return isinstance(v, VNone) and T_.value is None
+        v = v.val if isinstance(v, VOpt) and not isinstance(T_, TOpt) else v
+        if isinstance(T_, TOpt):
+            return isinstance(v, (VNone, VOpt)) or self.kind_matches(v, T_.elem)
+        if isinstance(T_, TInt):
+            return isinstance(v, (VInt, VBool)) and (not isinstance(v, VInt) or v.np == T_.np)
+        if isinstance(T_, TEnum):
+            return isinstance(v, VEnum) and v.cls is T_.cls
+        if isinstance(T_, TFloat):
+            return isinstance(v, VFloat) and v.kind == T_.kind
+        if isinstance(T_, TBool):
+            return isinstance(v, VBool)
+        if isinstance(T_, (TObj, TMap)):
+            return isinstance(v, VObj)
+        if isinstance(T_, TStruct):
+            return isinstance(v, VStruct)
+        if isinstance(T_, TTuple):
+            return isinstance(v, VTuple) and len(v.items) == len(T_.items)
+        if isinstance(T_, TList):
+            return isinstance(v, (VList, VTuple))
+        if isinstance(T_, TStr):
+            return isinstance(v, (VStr, VStrSym))
+        return True
 
     def conforms(self, v, T_):
         """z3 condition that value v lies in the ranges declared by type T_ (None if nothing to check).
@@ -1013,7 +1057,9 @@ class Interp(Engine):
             self.in_clause = saved
 
     def call_native(self, obj, args, kwargs, node):
-        from .spec import Uninterp, SpecFn
+        from .spec import Uninterp, SpecFn, HeapPred
+        if isinstance(obj, HeapPred):
+            return obj.apply(self, args, kwargs)
         if isinstance(obj, Uninterp):
             return obj.apply(self, args, kwargs)
         if isinstance(obj, SpecFn):
@@ -2381,3 +2427,11 @@ def _forall_enum(self, args, kw):
     if extra:
         self.assume(z3.ForAll([j], z3.Implies(rng, z3.And(extra))))
     return VBool(z3.ForAll([j], z3.Implies(rng, body)))
+
+
+import typing as _typing  # noqa: E402
+
+
+@builtin(_typing.cast)
+def _cast(self, args, kw):
+    return args[1]
